@@ -2,7 +2,7 @@
 # selftest/run_translation_leg.sh <dir-with-<id>/patch.diff>: what the translation leg alone says about each change
 # (which functions the translators refuse and why, which refinement modules no longer build). Restores afterwards.
 HERE="$(cd "$(dirname "$0")/.." && pwd)"
-SRC="$1"
+SRC="$(cd "$1" && pwd)"
 WT="${VERIF_WT:-/tmp/verif-tl-wt-$$}"
 git -C /repo worktree add -q --detach $WT HEAD || exit 2
 G="$HERE/lean/PyemvGen"
